@@ -74,13 +74,13 @@ type ProgCase struct {
 }
 
 type TxReport struct {
-	ID       int    `json:"id"`
-	To       string `json:"to"`
-	Data     string `json:"data"`
-	Created  string `json:"created,omitempty"`
-	Adapter  string `json:"adapter"`
-	Ref      string `json:"reference"`
-	GasUsed  uint64 `json:"ref_gas_used"`
+	ID       int      `json:"id"`
+	To       string   `json:"to"`
+	Data     string   `json:"data"`
+	Created  string   `json:"created,omitempty"`
+	Adapter  string   `json:"adapter"`
+	Ref      string   `json:"reference"`
+	GasUsed  uint64   `json:"ref_gas_used"`
 	Boundary []uint64 `json:"-"`
 }
 
@@ -251,6 +251,7 @@ func RunProg(pc *ProgCase) (out *ProgOutcome) {
 		rw.BeginTx(thash)
 		rec.resetTx()
 		tracer := newCovTracer()
+		tracer.txGas = tx.Gas
 
 		// adapter side
 		var resA *Result
@@ -299,6 +300,7 @@ func RunProg(pc *ProgCase) (out *ProgOutcome) {
 		rep.Ref = fmtResult(resR, errR, logsR)
 		if resR != nil {
 			rep.GasUsed = resR.UsedGas
+			rep.Boundary = tracer.bound
 		}
 		if crash != nil {
 			rep.Adapter = crash.What
@@ -375,17 +377,29 @@ func RunProg(pc *ProgCase) (out *ProgOutcome) {
 		if ra, rr := aw.DB.GetRefund(), rw.DB.GetRefund(); ra != 0 || rr != 0 {
 			return fail(i, &Divergence{Rule: "final-state", Context: ctx(), Trait: "refund-counter-not-reset", What: fmt.Sprintf("refund after tx %d: adapter=%d ref=%d", tx.ID, ra, rr)})
 		}
-		if d := compareState(aw, rw, u, h, fmt.Sprintf("tx %d", tx.ID), out.Counts); d != nil {
-			if d.Context == "plain" {
-				d.Context = fb
+		endBlock := tx.EndBlock || i == len(pc.Txs)-1
+		// the state between a transaction and the commit of its block is only
+		// observable by later transactions of the same block: when the block
+		// ends right here, compare after the commit only
+		if !endBlock {
+			if d := compareState(aw, rw, u, h, fmt.Sprintf("tx %d", tx.ID), out.Counts); d != nil {
+				if d.Context == "plain" {
+					d.Context = fb
+				}
+				if r := fail(i, d); r != nil {
+					return r
+				}
 			}
-			if r := fail(i, d); r != nil {
-				return r
+		}
+		if endBlock {
+			// naming only: what this transaction destroyed is "destroyed in the block just committed"
+			for a := range h.DestroyedThisTx {
+				h.DestroyedSameBlock[a] = true
 			}
 		}
 		h.endTx()
 
-		if tx.EndBlock || i == len(pc.Txs)-1 {
+		if endBlock {
 			if d := safely("block-commit", func() { aw.EndBlock() }); d != nil {
 				d.Context = "block-commit"
 				return fail(i, d)
